@@ -80,7 +80,12 @@ type env struct {
 	current    int  // branch that last passed its gate (serial mode)
 	nonserial  bool // a branch event arrived while another branch was the running one
 	conc       bool // real concurrency: no gating, random yields
-	stopMode   bool // component funnelstop: Teardown is an event, a graceful Stop arrives at stopAt
+	// component funnelstop: a graceful Stop arrives at stopAt; the log also carries the control
+	// tokens of the stop protocol, replayed by the Lean driver component `workerstop`
+	// (Model/WorkerStop.lean) and ignored by `funnelmon`: R<k> / RE (Source.Read returned batch k /
+	// io.EOF), T (Source.Teardown called), SR / SD (Worker.Stop called / returned nil), Z (Worker.Do
+	// returned; Close follows), X[late-ack], X[stop-error], result suffix "stop-hang"
+	stopMode   bool
 	stopAt     int  // number of log events after which Worker.Stop is called
 	stopFn     func()
 	stopOnce   sync.Once
@@ -286,16 +291,31 @@ func (s *fakeSource) Read(context.Context) ([]opencdc.Record, error) {
 		bs = s.e.c.batches
 	}
 	if s.next >= len(bs) {
+		if s.e.stopMode {
+			s.e.emit(-1, "RE") // Read returns io.EOF
+		}
 		return nil, io.EOF
 	}
 	b := bs[s.next]
 	s.next++
 	s.e.mu.Lock()
 	s.e.pass = s.next
+	k := 0
+	if s.e.stopMode {
+		k = int(s.e.yieldRng.U64() % 4)
+	}
 	s.e.mu.Unlock()
 	out := make([]opencdc.Record, len(b))
 	for i, r := range b {
 		out[i] = mkRecord(r)
+	}
+	if s.e.stopMode {
+		// Read returns batch number s.next (1-based); a stop scheduled "after this many events" may
+		// fire right here, i.e. between the return of Read and the worker's acquireProcessingLock
+		s.e.emit(-1, "R"+strconv.Itoa(s.next))
+		for i := 0; i < k; i++ {
+			runtime.Gosched()
+		}
 	}
 	return out, nil
 }
@@ -746,8 +766,11 @@ func runCase(c *fcase, r *gen.Rand, o *gen.Out, conc bool) (line, res string, no
 			defer close(stopped)
 			// a graceful stop as lifecycle-poc issues it: Worker.Stop takes the processing lock,
 			// sets the stop flag and tears the source down
+			e.emit(-1, "SR") // Stop requested
 			if err := w.Stop(context.Background()); err != nil {
 				e.emit(-1, "X[stop-error]")
+			} else {
+				e.emit(-1, "SD") // Stop returned nil
 			}
 		}
 	}
@@ -760,6 +783,7 @@ func runCase(c *fcase, r *gen.Rand, o *gen.Out, conc bool) (line, res string, no
 		result = classify(w.Do(context.Background()))
 	}()
 	if e.stopMode {
+		e.emit(-1, "Z") // Do returned (result after "=>"); Close follows once Stop is back
 		e.mu.Lock()
 		fired := e.stopFired
 		e.mu.Unlock()
